@@ -192,6 +192,7 @@ class C20(Check):
         from geoh5py.workspace import Workspace
 
         res = CaseResult()
+        self.components_added = False
         pair = p["pair"]
         a_cls, b_cls, family, a_to_b, b_to_a = PAIRS[pair]
         path, path2 = env.new_path("c20"), env.new_path("c20b")
@@ -440,7 +441,9 @@ class C20(Check):
         if not em:
             return False
         if name == "channels":
-            if target.components:  # channel count is tied to the component groups
+            # the channel count is tied to the component groups of BOTH entities (the channels are shared): once either
+            # side carries components the channels stay as they are
+            if target.components or getattr(self, "components_added", False):
                 return False
             target.channels = [float(x) for x in sorted(set(v))]
             return True
@@ -483,8 +486,10 @@ class C20(Check):
             target.timing_mark = float(v[0]) / 10.0
             return True
         if name == "components":
-            if not target.channels or target.components:
+            # component groups live on one entity while their names are listed in the shared metadata: one side only
+            if not target.channels or target.components or getattr(self, "components_added", False):
                 return False
+            self.components_added = True
             block = {f"ch{i}": {"values": np.ones(target.n_vertices) * c} for i, c in enumerate(target.channels)}
             target.add_components_data({f"comp{len(target.property_groups or [])}": block})
             return True
